@@ -647,17 +647,24 @@ func (c *ctx) confirm(r *runResult, processLevel bool) (string, error) {
 	tmp := filepath.Join(c.scratch, "replay-"+shortHash(fp)+".json")
 	writeJSON(tmp, rf)
 	if !processLevel {
-		m, _, err := c.single("minimise", tmp, nil)
+		m, _, _ := c.single("minimise", tmp, nil)
 		if m != nil && m.Violation != nil && m.Violation.fingerprint() == fp {
 			rf.Minimised = m.Tape
 			rf.Violation = m.Violation
-		} else if err != nil {
-			return "", fmt.Errorf("minimiser run failed: %v", err)
 		}
+		// a minimiser process that dies (a race report, a crash) just means: no minimisation;
+		// the full tape is replayed below
 		writeJSON(tmp, rf)
 		// replay in a fresh process
-		rr, stderr, _ := c.single("replay", tmp, nil)
+		rr, stderr, rerr := c.single("replay", tmp, nil)
 		if rr == nil || rr.Violation == nil || rr.Violation.fingerprint() != fp {
+			// the replay may die of a process-level violation of the same run (race detector,
+			// crash): that confirms a violation of the property too
+			if pv := processViolation(c.spec.ID, stderr, rerr); pv != nil && rerr != nil {
+				rf.ProcessLvl = true
+				writeJSON(path, rf)
+				return path, nil
+			}
 			return "", fmt.Errorf("replay of %s did not reproduce (got %+v)\n%s", fp, rr, tail([]byte(stderr), 2000))
 		}
 		rf.Trace = rr.Trace
@@ -809,10 +816,6 @@ func (c *ctx) mainFlow(replay string, keep bool) int {
 		}
 		return code
 	}
-	// determinism smoke test: same seeds at two GOMAXPROCS values must give identical logs
-	if code := c.determinism(); code != 0 {
-		return code
-	}
 
 	workers := 16
 	if c.ts.Runs < workers*4 {
@@ -937,6 +940,15 @@ func (c *ctx) mainFlow(replay string, keep bool) int {
 		}
 	}
 
+	// determinism smoke test: same seeds at two GOMAXPROCS values must give identical logs. It
+	// is run when no new violation was found: a tree that violates the property is often
+	// schedule-dependent below the seams (that is the defect), and its violations have been
+	// confirmed by replay one by one above.
+	if unknownViol == 0 {
+		if code := c.determinism(); code != 0 {
+			return code
+		}
+	}
 	wall := time.Since(c.t0).Seconds()
 	if len(samples) == 0 {
 		samples = append(samples, map[string]any{"note": "no sample recorded"})
